@@ -544,11 +544,15 @@ def run(ck):
                          2 if ck.thorough else 1))
             owner.append(label)
     n_proc = max(1, min(8, len(jobs)))
-    if n_proc == 1:
+    results = None
+    if n_proc > 1:
+        try:
+            with mp.get_context("fork").Pool(n_proc) as pool:
+                results = pool.map(_replay_chunk, jobs, chunksize=1)
+        except (AssertionError, OSError):     # e.g. called from a daemonic process: replay in this process
+            results = None
+    if results is None:
         results = [_replay_chunk(j) for j in jobs]
-    else:
-        with mp.get_context("fork").Pool(n_proc) as pool:
-            results = pool.map(_replay_chunk, jobs, chunksize=1)
 
     total = {"cases": 0, "execs": 0, "ops": 0, "rejected_ops": 0, "nested": 0, "by_hand": 0,
              "by_hand_differs_from_composite": 0, "quiet_cases": 0}
